@@ -222,6 +222,19 @@ def corpus(tier):
     S.append(Scenario("epoll-chunked", {1: "kind=cb-unknown size=900 cbmax=400"}, [Req()], mode="epoll"))
     S.append(Scenario("epoll-post", {1: "kind=iovec size=300 iovn=5"}, [Req(method="POST", body=up, beh="f=c u=9,all l=r1")], mode="epoll", split=95))
     S.append(Scenario("fd-large", {1: "kind=fd size=140000"}, [Req()], note="more than one sendfile chunk"))
+    # "pool nearly full + late error reply": an automatic 400 (malformed chunk size) after the application has
+    # seen the request, with the connection pool so full of request headers that the first
+    # build_header_response() of the error reply fails and transmit_error_response_len() takes its
+    # out-of-pool-memory fall-back (notify, wipe the request, reset the pool, rebuild the header).
+    # The window of paddings that reaches the fall-back is about 100 bytes wide: sweep.
+    sweeps = [(1024, range(480, 921, 20))] if tier != "thorough" else \
+             [(1024, range(440, 961, 5)), (512, range(60, 441, 10)), (2048, range(1400, 1961, 10))]
+    for mem, pads in sweeps:
+        for pad in pads:
+            S.append(Scenario("late-error-m%d-p%d" % (mem, pad), {1: "kind=static size=30"},
+                              [Req(method="POST", body=up[:6], chunked=True, malformed=True, beh="f=c u=all l=r1",
+                                   extra=b"X-Pad: " + b"p" * pad + b"\r\n")], mem=mem,
+                              note="automatic error reply while the pool is nearly full of request headers"))
     if tier == "thorough":
         S.append(Scenario("static-large", {1: "kind=static size=70000"}, [Req()]))
         S.append(Scenario("chunked-large", {1: "kind=cb-unknown size=70000"}, [Req()]))
